@@ -100,6 +100,16 @@ def case_strategy(draw):
                 if int(a) < 2**32:
                     twin = str(_ipa.IPv6Address(int(a))) if a.version == 4 else str(_ipa.IPv4Address(int(a)))
                     variations.append((None, i, twin))
+    if kind not in ("grouped",) and spec.kind == "plain":
+        # grey twins on purpose: the same number with the other sign of zero / as the other numeric type
+        for i, (t, _) in enumerate(spec.p["desc"][1]):
+            v = spec.p["vals"][i]
+            if t == "float" and isinstance(v, float) and v == 0.0:
+                variations.append((None, i, -v))
+            elif t == "float[]" and isinstance(v, list) and any(isinstance(x, float) and x == 0.0 for x in v):
+                variations.append((None, i, [(-x if isinstance(x, float) and x == 0.0 else x) for x in v]))
+            elif t == "float" and v is not None and draw(st.integers(0, 3)) == 0:
+                variations.append((None, i, 0.0 if draw(st.booleans()) else -0.0))
     ignore_mode = draw(st.sampled_from(["none", "varied", "other", "meta", "ctx-varied", "ctx-nested", "ctx-exception",
                                         "ctx-exception"]))
     return {"spec": spec, "variations": variations, "ignore": ignore_mode,
@@ -237,6 +247,17 @@ def check(case, ctx):
             fb = _field_model(mv, var)
             if not clearly_different(fa, fb) or has_nan(model) or has_nan(mv):
                 ctx.cls("variation:grey-or-same")
+                # whether a grey pair (0.0 / -0.0, 1 / 1.0 inside a dictlist, one instant under two offsets) is equal is
+                # not for /verif to say - but whatever the library answers, the rest of the contract follows from it:
+                # symmetric, and equal records hash alike and count once in a set
+                ge1, ge2 = safe_eq(r, v, "grey pair"), safe_eq(v, r, "grey pair")
+                if ge1 != ge2:
+                    raise Violation("not-symmetric", "grey pair, field %s (%s): %r vs %r" % (fname, ftype, fa, fb))
+                if ge1 and not has_nan(model) and not has_nan(mv):
+                    h1, h2 = safe_hash(r, "hash(r)"), safe_hash(v, "hash(grey twin)")
+                    if h1 != h2:
+                        raise Violation("equal-records-hash-differently", "field %s (%s): %r and %r compare equal but their "
+                                        "hashes differ" % (fname, ftype, fa, fb), detail=ftype.replace("[]", ""))
                 continue
             nvar += 1
             ctx.cls("variation:clear")
